@@ -24,14 +24,17 @@
 (***************************************************************************)
 EXTENDS Naturals, Sequences, FiniteSets, TLC, Json, IOUtils, TypeTables
 
-CONSTANTS MaxTrip, MaxSteps, MaxDepth
+CONSTANTS MaxTrip, MaxSteps, MaxDepth, MaxDec, Full
 
-Progs  == JsonDeserialize(IOEnv.C19_PROGS)
+Batch  == JsonDeserialize(IOEnv.C19_PROGS)      \* [progs, exts, gvals]
+Progs  == Batch.progs
+Exts   == Batch.exts                            \* external functions: [name, res: possible result tags]
+GVals  == Batch.gvals                           \* external values: [name, t]
 Claims == JsonDeserialize(IOEnv.C19_CLAIMS)
 MaxAr  == 4
 
-VARIABLES pid, ctrl, envs, cells, dec, ev, status, steps, bad
-vars == <<pid, ctrl, envs, cells, dec, ev, status, steps, bad>>
+VARIABLES pid, ctrl, envs, cells, dec, ev, evh, evn, status, steps, bad
+vars == <<pid, ctrl, envs, cells, dec, ev, evh, evn, status, steps, bad>>
 
 P        == Progs[pid]
 C        == Claims[pid]
@@ -47,8 +50,8 @@ Data(t)  == [t |-> t, f |-> 0, env |-> 0]
 NoV      == Data(<<"?">>)
 NoneV    == Data(<<"none">>)
 Unbound  == Data(<<"unbound">>)
-W(kind, claimed, act, node) == [kind |-> kind, claimed |-> claimed, act |-> act, node |-> node]
-UnboundCell == [v |-> Unbound, w |-> W("none", TRUE, 0, 0), taint |-> FALSE]
+W(kind, claimed, act, node, nl) == [kind |-> kind, claimed |-> claimed, act |-> act, node |-> node, nl |-> nl]
+UnboundCell == [v |-> Unbound, w |-> W("none", TRUE, 0, 0, FALSE), taint |-> FALSE]
 St(k, t) == [k |-> k, t |-> t]
 ErrStatus(k) == IF k = "unsup" THEN St("unsup", <<"unsup">>) ELSE St("exc", <<k>>)
 
@@ -75,9 +78,9 @@ CellOf(es, env, name) ==
   ELSE IF es[env].cellOf[name] # 0 THEN es[env].cellOf[name]
   ELSE CellOf(es, es[env].parent, name)
 
-IsGlobalVal(nm) == \E i \in 1..Len(P.gvals) : P.gvals[i].name = nm
-GVal(nm)  == P.gvals[CHOOSE i \in 1..Len(P.gvals) : P.gvals[i].name = nm].t
-ExtOf(nm) == P.exts[CHOOSE i \in 1..Len(P.exts) : P.exts[i].name = nm]
+IsGlobalVal(nm) == \E i \in 1..Len(GVals) : GVals[i].name = nm
+GVal(nm)  == GVals[CHOOSE i \in 1..Len(GVals) : GVals[i].name = nm].t
+ExtOf(nm) == Exts[CHOOSE i \in 1..Len(Exts) : Exts[i].name = nm]
 
 (* ---- the implementation's claims ----------------------------------------- *)
 HasClaim(o) == C.types[o].has = 1
@@ -140,14 +143,20 @@ Strip(evs) == [i \in 1..Len(evs) |-> [o |-> evs[i].o, t |-> evs[i].t]]
 (* the run-time tag, and no operand of the same statement was already           *)
 (* mis-claimed (taint: a variable written by a statement that had a             *)
 (* disagreement carries it on, its later reads are consequences, not causes).   *)
-(* wk/wc/wrel describe the last binding of the variable involved: its kind,     *)
-(* whether the binding occurrence itself carried a claim, and whether it        *)
-(* happened in the same activation, in a callee ("inner") or in an enclosing    *)
-(* activation ("outer") of the one that observes it.                            *)
+(* wk/wc/wnl/wrel describe the last binding of the variable involved: its kind,   *)
+(* whether the binding occurrence itself carried a claim, whether it went through *)
+(* a nonlocal declaration, and whether it happened in the activation that now     *)
+(* observes it ("same") or in another one ("other").  unk: some operand of the    *)
+(* occurrence has no claim / the claim Any - a claim on the occurrence itself can *)
+(* then only be left over from an earlier iteration of the fixed point.           *)
+HasAny(ts)  == \E i \in 1..Len(ts) : \E j \in 1..Len(ts[i]) : ts[i][j] = "any"
+Unknown(a)  == ~HasClaim(a) \/ HasAny(ClaimOf(a))
+UnkArgs(o)  == \E j \in 1..Len(EX(o).args) : Unknown(EX(o).args[j])
 BadRec(clause, o, t, nm, c, act) ==
-  LET w == IF c = 0 THEN W("na", TRUE, act, 0) ELSE cells[c].w IN
-  [clause |-> clause, o |-> o, t |-> t, name |-> nm, wk |-> w.kind, wc |-> w.claimed, wnode |-> w.node,
-   wrel |-> IF c = 0 THEN "na" ELSE IF w.act = act THEN "same" ELSE IF w.act > act THEN "inner" ELSE "outer"]
+  LET w == IF c = 0 THEN W("na", TRUE, act, 0, FALSE) ELSE cells[c].w IN
+  [clause |-> clause, o |-> o, t |-> t, name |-> nm, wk |-> w.kind, wc |-> w.claimed, wnode |-> w.node, wnl |-> w.nl,
+   wrel |-> IF c = 0 THEN "na" ELSE IF w.act = act THEN "same" ELSE "other",
+   unk |-> clause = "types" /\ UnkArgs(o)]
 
 RECURSIVE Judge(_, _, _, _, _)
 Judge(evs, i, b, dirty, act) ==
@@ -169,20 +178,20 @@ ClosureBad(g, fenv, o, act) ==
 
 (* bindings: ws = sequence of [o, name, v]; name = "" is an event without a cell  *)
 (* (the tuple target as a whole)                                                  *)
-RECURSIVE DoWrites(_, _, _, _, _, _, _, _, _)
-DoWrites(cl, es, env, ws, kind, dirty, n, b, evs) ==
+RECURSIVE DoWrites(_, _, _, _, _, _, _, _, _, _)
+DoWrites(cl, es, env, ws, kind, dirty, n, b, evs, src) ==
   IF ws = <<>> THEN [cells |-> cl, bad |-> b, ev |-> evs]
   ELSE LET w == Head(ws)
            viol == HasClaim(w.o) /\ ~Covers(ClaimOf(w.o), w.v.t)
            b1 == IF viol /\ ~dirty
                  THEN b \cup {[clause |-> "types", o |-> w.o, t |-> w.v.t, name |-> w.name, wk |-> kind, wc |-> TRUE,
-                               wnode |-> n, wrel |-> "store"]}
+                               wnode |-> n, wnl |-> FALSE, wrel |-> "store", unk |-> src # 0 /\ Unknown(src)]}
                  ELSE b
            e1 == Append(evs, [o |-> w.o, t |-> w.v.t]) IN
-       IF w.name = "" THEN DoWrites(cl, es, env, Tail(ws), kind, dirty \/ viol, n, b1, e1)
+       IF w.name = "" THEN DoWrites(cl, es, env, Tail(ws), kind, dirty \/ viol, n, b1, e1, src)
        ELSE LET c == CellOf(es, env, w.name)
-                cell == [v |-> w.v, w |-> W(kind, HasClaim(w.o), env, n), taint |-> dirty \/ viol] IN
-            DoWrites([cl EXCEPT ![c] = cell], es, env, Tail(ws), kind, dirty, n, b1, e1)
+                cell == [v |-> w.v, w |-> W(kind, HasClaim(w.o), env, n, es[env].cellOf[w.name] = 0), taint |-> dirty \/ viol] IN
+            DoWrites([cl EXCEPT ![c] = cell], es, env, Tail(ws), kind, dirty, n, b1, e1, src)
 
 (* the bindings an assignment target performs for value v *)
 Targets(tgt, v) ==
@@ -211,19 +220,34 @@ Ret(c, v, cl, evs, b) ==
          [] d.kind = "assign" ->
               LET U == Targets(d.tgt, v) IN
               IF U.err # "" THEN [ctrl |-> <<>>, cells |-> cl, status |-> ErrStatus(U.err), ev |-> e1, bad |-> b1]
-              ELSE LET D == DoWrites(cl, envs, cenv, U.ws, U.kind, viol, f.node, b1, e1) IN
+              ELSE LET D == DoWrites(cl, envs, cenv, U.ws, U.kind, viol, f.node, b1, e1, d.e) IN
                    [ctrl |-> rest, cells |-> D.cells, status |-> St("run", <<>>), ev |-> D.ev, bad |-> D.bad]
 
 RECURSIVE PopToLoop(_)
 PopToLoop(c) == IF c[Len(c)].k \in {"while", "for"} THEN c ELSE PopToLoop(Front(c))
 
+(* ---- the event sequence ---------------------------------------------------------- *)
+(* The (occurrence, tag) events of an execution are what the CPython replay must      *)
+(* reproduce.  Printing them in full for every terminal state dominates the run time, *)
+(* so by default only their number and a rolling hash (evn, evh) are kept and         *)
+(* compared; Full = TRUE keeps the sequence itself (witnesses, diagnosis).            *)
+HM == 1000003
+TagIdx(s) == CASE s = "int" -> 1 [] s = "float" -> 2 [] s = "bool" -> 3 [] s = "str" -> 4 [] s = "none" -> 5
+               [] s = "fn" -> 6 [] s = "list" -> 7 [] s = "tuple" -> 8 [] OTHER -> 9
+RECURSIVE TCode(_, _, _)
+TCode(t, i, acc) == IF i > Len(t) THEN acc ELSE TCode(t, i + 1, (acc * 11 + TagIdx(t[i])) % HM)
+RECURSIVE HashEvs(_, _, _)
+HashEvs(h, evs, i) ==
+  IF i > Len(evs) THEN h ELSE HashEvs((h * 31 + evs[i].o * 13 + TCode(evs[i].t, 1, 0)) % HM, evs, i + 1)
+
 (* ---- state update helpers ----------------------------------------------------- *)
 Set(c, cl, es, st, evs, b, used) ==
-  /\ ctrl' = c /\ cells' = cl /\ envs' = es /\ status' = st /\ ev' = ev \o evs /\ bad' = b
+  /\ ctrl' = c /\ cells' = cl /\ envs' = es /\ status' = st /\ bad' = b
+  /\ ev' = (IF Full THEN ev \o evs ELSE ev) /\ evh' = HashEvs(evh, evs, 1) /\ evn' = evn + Len(evs)
   /\ dec' = dec \o used /\ steps' = steps + 1 /\ UNCHANGED pid
 Halt(k, evs, b, used) == Set(<<>>, cells, envs, ErrStatus(k), evs, b, used)
 
-Running     == status.k = "run" /\ steps < MaxSteps
+Running     == status.k = "run" /\ steps < MaxSteps /\ Len(dec) <= MaxDec
 AtNode(ks)  == Running /\ Top.i <= Len(Top.blk) /\ ND(Top.blk[Top.i]).kind \in ks
 AtEnd(k)    == Running /\ Top.i > Len(Top.blk) /\ Top.k = k
 IsCall(d)   == d.kind \in {"assign", "expr", "return"} /\ EX(d.e).kind = "lcall"
@@ -245,7 +269,7 @@ Enter ==
            cl0 == [i \in 1..E.n |-> UnboundCell]
            ws == [i \in 1..Len(FN(1).params) |->
                     [o |-> FN(1).params[i], name |-> EX(FN(1).params[i]).name, v |-> Data(FN(1).ptypes[i][ch[i]])]]
-           D == DoWrites(cl0, es, 1, ws, "param", FALSE, 0, bad, <<>>) IN
+           D == DoWrites(cl0, es, 1, ws, "param", FALSE, 0, bad, <<>>, 0) IN
        Set(<<Frame("call", FN(1).body, 0, 1)>>, D.cells, es, St("run", <<>>), D.ev, D.bad, ch)
 
 (* x = e, a, b = e, x op= e, e, return e  (e without a call of a local function) *)
@@ -267,13 +291,13 @@ ExecSimple ==
                  [] d.kind = "assign" ->
                       LET U == Targets(d.tgt, r.v) IN
                       IF U.err # "" THEN Halt(U.err, E, J.bad, r.s.used)
-                      ELSE LET D == DoWrites(cells, envs, env, U.ws, U.kind, J.dirty, n, J.bad, E) IN
+                      ELSE LET D == DoWrites(cells, envs, env, U.ws, U.kind, J.dirty, n, J.bad, E, d.e) IN
                            Set(Adv(ctrl), D.cells, envs, status, D.ev, D.bad, r.s.used)
                  [] d.kind = "aug" ->
                       LET nv == AugVal(d.op, cells[oldc].v.t, r.v.t) IN
                       IF IsErr(nv) THEN Halt(nv[2], E, J.bad, r.s.used)
                       ELSE LET D == DoWrites(cells, envs, env, <<[o |-> d.tgt, name |-> EX(d.tgt).name, v |-> Data(nv)]>>,
-                                             "aug", J.dirty \/ cells[oldc].taint, n, J.bad, E) IN
+                                             "aug", J.dirty \/ cells[oldc].taint, n, J.bad, E, 0) IN
                            Set(Adv(ctrl), D.cells, envs, status, D.ev, D.bad, r.s.used)
 
 (* g(e..), x = g(e..), return g(e..)  with g a local function: push an activation *)
@@ -298,7 +322,7 @@ ExecCall ==
                      b1 == J.bad \cup ClosureBad(g, fv.env, d.e, env)
                      ws == [i \in 1..Len(FN(g).params) |->
                               [o |-> FN(g).params[i], name |-> EX(FN(g).params[i]).name, v |-> a.vs[i + 1]]]
-                     D == DoWrites(cl0, es, ne, ws, "param", J.dirty, n, b1, E) IN
+                     D == DoWrites(cl0, es, ne, ws, "param", J.dirty, n, b1, E, 0) IN
                  Set(Append(Adv(ctrl), Frame("call", FN(g).body, n, ne)), D.cells, es, status, D.ev, D.bad, a.s.used)
 
 ExecIf ==
@@ -348,7 +372,7 @@ ExecFor ==
        ELSE LET items == Elems(r.v.t) IN
             IF items = <<>> THEN Set(Adv(ctrl), cells, envs, status, E, J.bad, r.s.used)
             ELSE LET D == DoWrites(cells, envs, env, <<[o |-> d.tgt, name |-> EX(d.tgt).name, v |-> Data(items[1])]>>,
-                                   "for", J.dirty, n, J.bad, E) IN
+                                   "for", J.dirty, n, J.bad, E, 0) IN
                  Set(Append(Adv(ctrl), [Frame("for", d.body, n, env) EXCEPT !.items = Tail(items), !.dirty = J.dirty]),
                      D.cells, envs, status, D.ev, D.bad, r.s.used)
 
@@ -357,14 +381,14 @@ NextFor ==
   /\ LET f == Top  d == ND(f.node) IN
      IF f.items = <<>> THEN Set(Front(ctrl), cells, envs, status, <<>>, bad, <<>>)
      ELSE LET D == DoWrites(cells, envs, f.env, <<[o |-> d.tgt, name |-> EX(d.tgt).name, v |-> Data(Head(f.items))]>>,
-                            "for", f.dirty, f.node, bad, <<>>) IN
+                            "for", f.dirty, f.node, bad, <<>>, 0) IN
           Set(Append(Front(ctrl), [f EXCEPT !.i = 1, !.items = Tail(@)]), D.cells, envs, status, D.ev, D.bad, <<>>)
 
 ExecDef ==
   /\ AtNode({"def"})
   /\ LET n == Top.blk[Top.i]  d == ND(n)  env == Top.env
          c == CellOf(envs, env, FN(d.f).name)
-         cell == [v |-> [t |-> <<"fn">>, f |-> d.f, env |-> env], w |-> W("def", TRUE, env, n), taint |-> FALSE] IN
+         cell == [v |-> [t |-> <<"fn">>, f |-> d.f, env |-> env], w |-> W("def", TRUE, env, n, FALSE), taint |-> FALSE] IN
      Set(Adv(ctrl), [cells EXCEPT ![c] = cell], envs, status, <<>>, bad, <<>>)
 
 ExecJump ==
@@ -383,13 +407,14 @@ EndCall ==
   /\ AtEnd("call")
   /\ LET R == Ret(ctrl, NoneV, cells, <<>>, bad) IN Set(R.ctrl, R.cells, envs, R.status, R.ev, R.bad, <<>>)
 
+(* bounds of the exploration: the execution is cut (and counted), never judged further *)
 TooLong ==
-  /\ status.k = "run" /\ steps >= MaxSteps
-  /\ status' = St("steps", <<"steps">>) /\ UNCHANGED <<pid, ctrl, envs, cells, dec, ev, steps, bad>>
+  /\ status.k = "run" /\ (steps >= MaxSteps \/ Len(dec) > MaxDec)
+  /\ status' = St("steps", <<"steps">>) /\ UNCHANGED <<pid, ctrl, envs, cells, dec, ev, evh, evn, steps, bad>>
 
 Init ==
   /\ pid \in 1..Len(Progs)
-  /\ ctrl = <<>> /\ envs = <<>> /\ cells = <<>> /\ dec = <<>> /\ ev = <<>>
+  /\ ctrl = <<>> /\ envs = <<>> /\ cells = <<>> /\ dec = <<>> /\ ev = <<>> /\ evh = 0 /\ evn = 0
   /\ status = St("init", <<>>) /\ steps = 0 /\ bad = {}
 
 Next == \/ Enter \/ ExecSimple \/ ExecCall \/ ExecIf \/ ExecWhile \/ NextWhile \/ ExecFor \/ NextFor
@@ -399,5 +424,5 @@ Spec == Init /\ [][Next]_vars
 (* ---- reporting -------------------------------------------------------------------- *)
 Terminal == status.k \notin {"init", "run"}
 Emit == Terminal =>
-  PrintT(ToJson([pid |-> pid, dec |-> dec, ev |-> ev, out |-> status, bad |-> bad]))
+  PrintT(ToJson([pid |-> pid, dec |-> dec, ev |-> ev, evh |-> evh, evn |-> evn, out |-> status, bad |-> bad]))
 =============================================================================
